@@ -18,10 +18,10 @@ SCHEMAS = ["prim_int", "prim_long", "prim_string", "prim_bytes", "prim_double", 
            "union_two_recs", "union_arr_map", "pair_array_int", "pair_map_long", "pair_array_record", "pair_map_union",
            "pair_field_union", "pair_union_record", "chain_arr_union_map", "chain_rec_union_rec_arr", "ref_after_def",
            "ns_inherit", "ns_dotted", "ns_switch", "ns_null", "err_type", "rec_dictnull", "map_key_is_field", "logical_noscale",
-           "rec_two_children", "err_nested"]
+           "rec_two_children", "err_nested", "rec_defaults_bytes", "rec_defaults7"]
 QUICK = ["prim_long", "prim_bytes", "enum", "fixed", "rec_flat", "rec_defaults", "union_prims", "union_named_mix",
          "pair_array_int", "pair_map_union", "pair_field_union", "ref_after_def", "ns_inherit", "chain_rec_union_rec_arr",
-         "rec_empty", "ns_null", "logical_noscale"]
+         "rec_empty", "ns_null", "logical_noscale", "rec_defaults_bytes"]
 LOGICAL = {"logical_noscale"}
 CUT = 2  # gen_data builds arrays/maps with `for _ in range(10)`; the harness cuts those loops to CUT iterations
 
